@@ -5,4 +5,7 @@ CONSTANTS
   TwoQueues = TRUE
   SkipAfterDelete = TRUE
   MaxCalls = 4
-INVARIANTS TypeOK EveryLaterMessage StaysSubscribed NoneAfterUnsubscribedInOrder
+  MaxPubs = 1
+  SplitPub = FALSE
+INVARIANTS TypeOK EveryLaterMessage NoDuplicateDelivery NoneToThoseWhoLeftInOrder StaysSubscribed NoneAfterUnsubscribedInOrder
+CHECK_DEADLOCK FALSE
